@@ -1,2 +1,4 @@
 From LV Require Repl.Model.
 NAMES Repl.Model.repl_init Repl.Model.repl_step Repl.Model.repl_settle Repl.Model.repl_find_late Repl.Model.repl_view Repl.Model.repl_started
+UNIT repl
+GLUE replrun.ml
